@@ -22,7 +22,8 @@ from vlib.core import hx
 MODULES = ["TLVerif.Props.C35"]
 THEOREMS = ["TLVerif.Props.C35." + t for t in [
     "frames_roundtrip_plain", "frames_roundtrip_encrypted", "chunk_invariant", "reader_refines_stream",
-    "chunk_dependence_magic", "cbc_roundtrip", "writer_total", "word_roundtrip"]]
+    "chunk_dependence_magic", "cbc_roundtrip", "writer_total", "accepted_packet_has_valid_crc_and_seq",
+    "frame_accepted", "flipped_frame_rejected", "corrupt_detected_partial", "word_roundtrip"]]
 
 NONCE = 0x7acb87aa
 HS = 0x7682eef5
